@@ -3,7 +3,7 @@
    window_when, window_toggle over group_join; buffers = [buffered] windows), run by the
    window-aware runner Ops/MultiWin.v (handed observables, RefCountDisposable). *)
 From RxVerif Require Import Base.Prelude Ops.Machine Ops.MultiWin Ops.MultiWinFacts Ops.Windows
-  Ops.WindowCountFacts Ops.WindowFacts Ops.BufferFacts.
+  Ops.WindowCountFacts Ops.WindowFacts Ops.BufferFacts Ops.BufferCountFacts.
 
 (* ---- count-based windows: closed form for ALL count >= 1, skip >= 1 ---------- *)
 (* window k holds exactly elements k*skip .. k*skip+count-1 (in order), completes right after the
@@ -251,3 +251,51 @@ Example C18_witness_buffer :
   emitted (fst (run all_imm (x_buffer_count 2 3) (src_events [10; 11; 12; 13; 14; 15; 16] TDone)))
   = [Next [10; 11]; Next [13; 14]; Next [16]; Done].
 Proof. vm_compute. reflexivity. Qed.
+
+(* ---- buffer_with_count: closed form of the whole run, ALL count >= 1, skip >= 1 ------------- *)
+(* (Ops/BufferCountFacts.v)  buffer k is the slice xs[k*skip .. k*skip+count-1] (shorter at the end of the
+   source); buffers come in the order of k.  A COMPLETING source flushes the non-empty partial buffers: the
+   buffers are those with k*skip < length, i.e. ceil(length/skip) of them, then Done. *)
+Theorem C18_buffer_count_closed_form : forall A count skip, 0 < count -> 0 < skip -> forall (xs : list A),
+  emitted (fst (run all_imm (x_buffer_count count skip) (src_events xs TDone)))
+  = map Next (map (fun k => ztake count (zskip (Z.of_nat k * skip) xs))
+                  (seq 0 (Z.to_nat ((zlen xs + skip - 1) / skip))))
+    ++ [Done].
+Proof. exact @buffer_count_completing. Qed.
+Print Assumptions C18_buffer_count_closed_form.
+(* all three terminations at once, [nbuffers] as characterised below *)
+Theorem C18_buffer_count_closed_form_any_termination : forall A count skip, 0 < count -> 0 < skip ->
+  forall (xs : list A) tm,
+  emitted (fst (run all_imm (x_buffer_count count skip) (src_events xs tm)))
+  = map Next (map (fun k => ztake count (zskip (Z.of_nat k * skip) xs))
+                  (seq 0 (nbuffers count skip (zlen xs) tm)))
+    ++ term_ev tm.
+Proof. exact @buffer_count_closed_form. Qed.
+Print Assumptions C18_buffer_count_closed_form_any_termination.
+(* a FAILING source (or one that never ends) delivers only the buffers that were full before -- those with
+   k*skip+count <= length -- then the error: the partial buffers are lost *)
+Theorem C18_buffer_count_closed_form_error : forall A count skip, 0 < count -> 0 < skip ->
+  forall (xs : list A) tm, tm <> TDone ->
+  emitted (fst (run all_imm (x_buffer_count count skip) (src_events xs tm)))
+  = map Next (map (fun k => ztake count (zskip (Z.of_nat k * skip) xs))
+                  (seq 0 (Z.to_nat (if zlen xs <? count then 0 else (zlen xs - count) / skip + 1))))
+    ++ term_ev tm.
+Proof. exact @buffer_count_failing. Qed.
+Print Assumptions C18_buffer_count_closed_form_error.
+(* the two counts, characterised without division *)
+Theorem C18_buffer_count_number_completing : forall count skip, 0 < skip -> forall n k, 0 <= n ->
+  ((k < nbuffers count skip n TDone)%nat <-> Z.of_nat k * skip < n).
+Proof. exact nbuffers_done. Qed.
+Theorem C18_buffer_count_number_failing : forall count skip, 0 < skip -> forall n tm k,
+  tm <> TDone -> 0 <= n -> ((k < nbuffers count skip n tm)%nat <-> Z.of_nat k * skip + count <= n).
+Proof. exact nbuffers_full. Qed.
+Print Assumptions C18_buffer_count_number_completing.
+Print Assumptions C18_buffer_count_number_failing.
+Example C18_witness_buffer_closed_form :
+  emitted (fst (run all_imm (x_buffer_count 3 2) (src_events [1; 2; 3; 4; 5] TDone)))
+  = [Next [1; 2; 3]; Next [3; 4; 5]; Next [5]; Done]
+  /\ emitted (fst (run all_imm (x_buffer_count 3 2) (src_events [1; 2; 3; 4; 5] (TErr 7))))
+     = [Next [1; 2; 3]; Next [3; 4; 5]; Err 7]
+  /\ emitted (fst (run all_imm (x_buffer_count 2 3) (src_events [1; 2; 3; 4; 5; 6] TDone)))
+     = [Next [1; 2]; Next [4; 5]; Done].
+Proof. vm_compute. auto. Qed.
